@@ -490,6 +490,7 @@ func (e *episode) observe(run *hx.Run, res string, info opInfo, waitersBefore in
 			if info.kind != "await" && info.kind != "store" {
 				run.Violate("aggsigdb:read_without_store", fmt.Sprintf("%s: reader %d returned a value during op %s", e.impl, r.rid, info.kind))
 			}
+			hx.Scribble(r.val) // hostile caller: what a reader got is its private copy
 		} else {
 			parts = append(parts, fmt.Sprintf("%d:%s", r.rid, errClass(r.err)))
 		}
